@@ -78,7 +78,7 @@ JudgeVariant(e, t, v) ==
              ELSE IF missing # {} /\ extra = {} THEN "rows-missing"
              ELSE IF extra # {} /\ missing = {} THEN "extra-rows"
              ELSE "wrong-rows"
-  IN IF v.res # "ok" THEN {<<inv, "query-failed", v.name>>}
+  IN IF v.res # "ok" THEN {<<inv, IF v.res = "panic" THEN "query-panicked" ELSE "query-failed", v.name>>}
      ELSE (IF Len(v.ids) # Cardinality(gotIds) THEN {<<inv, "duplicate-rows", v.name>>} ELSE {})
           \cup (IF Cardinality(gotIds) # Cardinality(got) THEN {<<inv, "rows-not-in-table", v.name>>} ELSE {})
           \cup (IF got # E THEN {<<inv, Refine(inv, cls, e.pred, missing, extra, t), v.name>>} ELSE {})
